@@ -98,7 +98,6 @@ Definition word_decision (prevr r : obs) (prevPrev prev current : wbc) (isAfterN
   if o_cr prevr && o_lf r then (false, false)
   else if wbq prev WB_NewlineCRLF && isAfterNoExtend then (true, false)
   else if wbq current WB_NewlineCRLF then (true, false)
-  else if o_zwj prevr && isExtPic then (false, false)
   else if wbq prev WB_WSegSpace && wbq current WB_WSegSpace && isAfterNoExtend then (false, false)
   else if wbq current WB_ExtendFormat then (false, false)
   else if ahn prev && ahn current then (false, false)
@@ -112,6 +111,7 @@ Definition word_decision (prevr r : obs) (prevPrev prev current : wbc) (isAfterN
        then (false, true)                                  (* repaired (F19): class of the previous non-Extend rune *)
   else if (wbq prevPrev WB_Numeric && wbq current WB_Numeric)
           && (wbq prev WB_MidNum || wbq prev WB_MidNumLet || wbq prev WB_Single_Quote) then (false, true)
+  else if o_zwj prevr && isExtPic then (false, false)    (* WB3c, tested late (repaired F25): see the source comment *)
   else if wb1516 then (false, false)
   else (true, false).
 
